@@ -359,6 +359,7 @@ func (m *Machine) pureCall(st *State, fn *ssa.Function, args []Value, fvals []Va
 	// pure evaluation happens "inside" the current frames for entry/let lookups
 	sub.frames = append([]*Frame{}, st.frames...)
 	nBase := len(sub.frames)
+	sub.baseFrames = nBase
 	m.pushFrame(sub, fn, args, fvals, nil, 2)
 	savedWork := m.work
 	m.work = []*State{sub}
@@ -857,6 +858,10 @@ func init() {
 		},
 		"closed": func(m *Machine, st *State, fr *Frame, instr ssa.Instruction, fn *ssa.Function, args []Value) Value {
 			return m.chanClosed(st, args[0].(*Term))
+		},
+		"ite": func(m *Machine, st *State, fr *Frame, instr ssa.Instruction, fn *ssa.Function, args []Value) Value {
+			// no branching: both alternatives are values already
+			return m.mergeValue(args[0].(*Term), args[1], args[2])
 		},
 		"ghostTrue": func(m *Machine, st *State, fr *Frame, instr ssa.Instruction, fn *ssa.Function, args []Value) Value {
 			return m.ctx.T
